@@ -88,6 +88,8 @@ def main():
             o = optobjs[opts["$obj"]]
             o.update(opts.get("$set", {}))
             opts = o
+        elif "$literal_fresh" in opts:
+            opts = dict(opts["$literal_fresh"])  # a brand-new dictionary with exactly these keys
         else:
             opts = dict(opts)
         with contextlib.redirect_stdout(b), contextlib.redirect_stderr(b):
